@@ -247,6 +247,38 @@ pub fn run_c06(r: &mut Report) {
                    match &res { Ok(v) => verdict(v), Err(p) => format!("panic: {}", p) }, matches!(&res, Ok(v) if v.is_ok() == expect));
         }
     }
+    // expiries written with fractional seconds, read from a document and verified a few milliseconds after the stated instant (and a few
+    // before): the stated instant decides, not the next or the previous whole second
+    for frac_ms in [500i64, 750, 999, 1, 250] {
+        use chrono::{Duration, TimeZone, Utc};
+        for late in [true, false] {
+            // wait for a clock reading S + frac + 30ms (late) or S + frac - 200ms (early) within the same second S, when possible
+            let want_ms = if late { frac_ms + 30 } else { frac_ms - 200 };
+            if !(5..=960).contains(&want_ms) { continue; }
+            let mut now = Utc::now();
+            for _ in 0..4000 { let ms = now.timestamp_subsec_millis() as i64; if ms >= want_ms && ms <= want_ms + 15 { break; } std::thread::sleep(std::time::Duration::from_millis(1)); now = Utc::now(); }
+            let stated = Utc.timestamp_opt(now.timestamp(), 0).unwrap() + Duration::milliseconds(frac_ms);
+            for notation in ["Z", "+02:00"] {
+                let text = if notation == "Z" { stated.format("%Y-%m-%dT%H:%M:%S%.3fZ").to_string() } else { stated.with_timezone(&chrono::FixedOffset::east_opt(7200).unwrap()).format("%Y-%m-%dT%H:%M:%S%.3f%:z").to_string() };
+                let (lay0, d) = simple(&[&o1], 30);
+                let mut v = serde_json::to_value(&lay0).unwrap();
+                v["signed"]["expires"] = json!(text);
+                let l = match serde_json::from_str::<Metablock>(&v.to_string()).ok().and_then(|m| match m.metadata { MetadataWrapper::Layout(l) => Some(l), _ => None }) { Some(l) => l, None => continue };   // a reader may refuse fractions
+                let mb = signed_layout(&l, &[&o1]);
+                let before = Utc::now();
+                let res = no_panic(|| in_toto_verify(&mb, owner_keys(&[&o1]), d.path().to_str().unwrap(), None));
+                let after = Utc::now();
+                // decided only when both clock readings around the call fall on the same side of the stated instant
+                let expect = if before > stated && after > stated { Some(false) } else if before < stated && after < stated { Some(true) } else { None };
+                // a reader that keeps only whole seconds may legitimately treat the instant as the START of its second (never later than stated)
+                if let Some(e) = expect {
+                    let ok = match &res { Ok(v) => if e { true } else { v.is_err() }, Err(_) => false };
+                    r.case("fractional-expiry", json!({"expires": text, "verified_at_ms_after_stated": (before - stated).num_milliseconds()}), if e { "Ok, or Err if the reader truncates" } else { "Err (already expired)" },
+                           match &res { Ok(v) => verdict(v), Err(p) => format!("panic: {}", p) }, ok);
+                }
+            }
+        }
+    }
     // the clock is read at every verification: a layout that expires between two calls is rejected by the later one,
     // whatever the earlier calls in this process returned (a failed one, a successful one)
     for earlier in ["failed-verification", "successful-verification", "both"] {
